@@ -11,7 +11,7 @@ PROP = {
                  "Grol.Save.inspectP_noNL", "Grol.Save.quoteAscii_noNL", "Grol.Save.floatBytes_noNL",
                  "Grol.Save.parseDecInt_digitBytes"],
     "suites": ["saveload"],
-    "rule": "saveload suite: one case = a global environment built by evaluating definitions one by one on a fresh eval.State, then "
+    "rule": "[4th session: plus an operator x prefix-operand table of saved functions (a - --b, a+ ++b, ...) and the alias-of-a-named-function cases.] saveload suite: one case = a global environment built by evaluating definitions one by one on a fresh eval.State, then "
             "SaveGlobals -> bytes, loaded into two fresh states: line by line with eval.EvalString exactly as repl.AutoLoad does, and as a "
             "whole as load() does; both reloaded states are dumped (typed, structural: floats by bit pattern, functions by name and cache key), "
             "saved again (bytes compared), and every call expression of the case is evaluated on the original and on both reloaded states "
